@@ -138,6 +138,7 @@ type FnResult struct {
 	Retried    bool
 	noNeg      bool // re-examination: do not trust remembered "candidate not proved" outcomes
 	skip       func(*Obligation) bool // obligations not to solve (irrelevant to the property checked)
+	replay     *replayInfo            // how to call the function with concrete arguments (replay.go)
 }
 
 type VerifyOpts struct {
@@ -186,6 +187,12 @@ func (p *Prog) VerifyFn(fn *ssa.Function, opts VerifyOpts) (res *FnResult) {
 		}
 		res.Obls = x.obls
 		res.Stale = x.staleMsgs
+		if x.root != nil && x.root.entrySt != nil {
+			func() {
+				defer func() { recover() }()
+				res.replay = x.buildReplayInfo(fn, x.root)
+			}()
+		}
 		res.Assume = sortedKeys(c.Assume)
 		res.FnsSeen = sortedKeys(x.fnsSeen)
 		res.Contracts = sortedKeys(x.contractsUsed)
